@@ -20,8 +20,27 @@ Open Scope N_scope.
 (* ------------------------------------------------------------------------------------------- *)
 (* templates                                                                                    *)
 (* ------------------------------------------------------------------------------------------- *)
-Inductive hkind := HIdent | HValue.
+(* HIdent: an identifier-class argument (class label, relation type, property name), pasted as is.
+   HValue: a stored value pasted as is - never accepted.
+   HEsc d: a stored value passed d >= 1 times through the escaping helper (backslash and both quote characters get a backslash)
+           before it is pasted - accepted only inside a quoted literal. *)
+Inductive hkind := HIdent | HValue | HEsc (d : nat).
 Inductive frag := Lit (s : str) | Hole (v : N) (k : hkind).
+
+(* the escaping helper (Neo4jPropertyGraph._cypher_escape; the translator checks its body literally), and what
+   the lexer of the database makes of the content of a quoted literal *)
+Fixpoint esc_q (v : str) : str :=
+  match v with
+  | [] => []
+  | c :: r => if (c =? 92) || (c =? 39) || (c =? 34) then 92 :: c :: esc_q r else c :: esc_q r
+  end.
+Fixpoint esc_n (d : nat) (v : str) : str :=
+  match d with O => v | Datatypes.S d' => esc_q (esc_n d' v) end.
+Fixpoint unesc (v : str) : str :=
+  match v with
+  | [] => []
+  | c :: r => if c =? 92 then match r with c2 :: r2 => c2 :: unesc r2 | [] => [c] end else c :: unesc r
+  end.
 
 Record tmpl := mk_tmpl {
   t_id : N;
@@ -37,6 +56,7 @@ Fixpoint render (fs : list frag) (e : env) : str :=
   match fs with
   | [] => []
   | Lit s :: r => s ++ render r e
+  | Hole v (HEsc d) :: r => esc_n d (e v) ++ render r e
   | Hole v _ :: r => e v ++ render r e
   end.
 
@@ -55,6 +75,24 @@ Fixpoint has_value_hole (fs : list frag) : bool :=
   | Hole _ HValue :: _ => true
   | _ :: r => has_value_hole r
   end.
+
+Fixpoint has_esc_hole (fs : list frag) : bool :=
+  match fs with
+  | [] => false
+  | Hole _ (HEsc _) :: _ => true
+  | _ :: r => has_esc_hole r
+  end.
+
+(* _cypher_escape applied to a whole sub-template: the escape of a concatenation is the concatenation of the
+   escapes; an identifier has nothing to escape *)
+Definition esc_frag (f : frag) : frag :=
+  match f with
+  | Lit s => Lit (esc_q s)
+  | Hole v HIdent => Hole v HIdent
+  | Hole v HValue => Hole v (HEsc 1)
+  | Hole v (HEsc d) => Hole v (HEsc (Datatypes.S d))
+  end.
+Definition esc_frags (fs : list frag) : list frag := map esc_frag fs.
 
 (* ------------------------------------------------------------------------------------------- *)
 (* characters                                                                                   *)
@@ -313,6 +351,12 @@ Fixpoint tscan (s : sstate) (fs : list frag) : option sstate :=
   | Lit t :: r => match scan s t with Some s' => tscan s' r | None => None end
   | Hole _ HIdent :: r => if hole_ok s then tscan (hole_next s) r else None
   | Hole _ HValue :: _ => None
+  | Hole _ (HEsc d) :: r =>               (* escaped at least once, and inside a quoted literal *)
+      match d, s_mode s with
+      | Datatypes.S _, MSq => tscan s r
+      | Datatypes.S _, MDq => tscan s r
+      | _, _ => None
+      end
   end.
 
 Definition tmpl_ok (t : tmpl) : bool :=
@@ -332,15 +376,70 @@ Definition agree_on (vs : list N) (e e' : env) : Prop := forall v, In v vs -> e 
 (* ------------------------------------------------------------------------------------------- *)
 (* the alternative the property allows: a value rendered as a correctly escaped quoted literal  *)
 (* ------------------------------------------------------------------------------------------- *)
-Fixpoint esc_sq (v : str) : str :=
-  match v with
+Definition quoted_literal (v : str) : str := 39 :: esc_q v ++ [39].
+
+(* a template inside an escaped literal of another one (items of the two fragment lists, literal text exploded
+   into characters so that the merging of adjacent literal pieces does not matter) *)
+Inductive item := IChar (c : N) | IHole (v : N) (k : hkind).
+Fixpoint items (fs : list frag) : list item :=
+  match fs with
   | [] => []
-  | c :: r => if (c =? 92) || (c =? 39) then 92 :: c :: esc_sq r else c :: esc_sq r
+  | Lit s :: r => map IChar s ++ items r
+  | Hole v k :: r => IHole v k :: items r
   end.
-Definition quoted_literal (v : str) : str := 39 :: esc_sq v ++ [39].
+Definition hkind_eqb (a b : hkind) : bool :=
+  match a, b with
+  | HIdent, HIdent => true
+  | HValue, HValue => true
+  | HEsc x, HEsc y => Nat.eqb x y
+  | _, _ => false
+  end.
+Definition item_eqb (a b : item) : bool :=
+  match a, b with
+  | IChar x, IChar y => x =? y
+  | IHole v k, IHole w l => (v =? w) && hkind_eqb k l
+  | _, _ => false
+  end.
+Fixpoint prefixb (a b : list item) : bool :=
+  match a, b with
+  | [], _ => true
+  | x :: a', y :: b' => item_eqb x y && prefixb a' b'
+  | _ :: _, [] => false
+  end.
+Fixpoint infixb (a b : list item) : bool :=
+  prefixb a b || match b with [] => false | _ :: b' => infixb a b' end.
+(* the parent's fragments contain the escaped fragments of the nested template *)
+Definition nested_in (nested parent : list frag) : bool := infixb (items (esc_frags nested)) (items parent).
 
 (* known findings (operations whose statement still interpolates a value; see known_findings.d/C19.json) *)
 Definition known_ops : list str := map of_string
   ["Neo4jPropertyGraph.serialize_graph";
    "Neo4jCBMGraph.get_matching_nodes_with_components"]%string.
 Definition excused (t : tmpl) : bool := mem (t_op t) known_ops && has_value_hole (t_frags t).
+
+(* ------------------------------------------------------------------------------------------- *)
+(* the property, per template                                                                    *)
+(* ------------------------------------------------------------------------------------------- *)
+(* for every filling of the identifier holes with identifiers and every two assignments of stored values:
+   the statement is well-formed for both; the scanner ends in the same state (the texts can differ inside
+   correctly escaped literals only); and without escaped literals the texts are equal *)
+Definition conforms (t : tmpl) : Prop :=
+  forall e e', idents_ok (t_frags t) e -> agree_on (ident_vars (t_frags t)) e e' ->
+  (has_esc_hole (t_frags t) = false -> render (t_frags t) e = render (t_frags t) e') /\
+  scan init (render (t_frags t) e) = scan init (render (t_frags t) e') /\
+  wf_b (render (t_frags t) e) (t_params t) = true /\ wf_b (render (t_frags t) e') (t_params t) = true.
+
+Definition refuted_by_value (t : tmpl) : Prop :=
+  exists e e', idents_ok (t_frags t) e /\ agree_on (ident_vars (t_frags t)) e e' /\
+               render (t_frags t) e <> render (t_frags t) e' /\
+               wf_b (render (t_frags t) e') (t_params t) = false.
+
+Definition find_by_id (ts : list tmpl) (i : N) : option tmpl := find (fun t => t_id t =? i) ts.
+
+(* a statement inside an escaped literal of another statement: it is a template of its own (checked like any
+   other, with no parameters: the server side runs it by itself) and the parent really contains its escape *)
+Definition nested_pair_ok (ts : list tmpl) (p : N * N) : bool :=
+  match find_by_id ts (fst p), find_by_id ts (snd p) with
+  | Some tn, Some tp => nested_in (t_frags tn) (t_frags tp)
+  | _, _ => false
+  end.
